@@ -555,6 +555,8 @@ def run_operator(sc: dict, wall_limit: float = 60.0) -> dict:
                     "watch_requests": [{"t": r["t"], "path": r["path"], "since": r["query"].get("resourceVersion"),
                                         "response": r["response"]} for r in cluster.requests
                                        if r["method"] == "GET" and r["query"].get("watch") == "true"],
+                    "not_found": sorted({r["path"].rstrip("/").split("/")[-1] for r in cluster.requests
+                                         if r["method"] == "GET" and r["response"] == 404}),
                     "history": {f"{k[0][2]}/{k[1]}/{k[2]}": [[v["t"], v["event"], v["body"]["metadata"]["resourceVersion"]] for v in vs]
                                 for k, vs in cluster.history.items() if k[0][2] not in META}}
         finally:
